@@ -19,17 +19,17 @@ func init() {
 }
 
 type faultCtx struct {
-	y          *Sys
-	prop       string
-	faultsLeft int
-	cuts       int
-	resumeCut  map[uuid.UUID]bool // a resume exchange of this stream was cut by a link failure
-	refused    map[uuid.UUID]bool // the broker was told to refuse / forget this stream
-	miscOps    []*Op
-	outageOps  []*Op // ops started while no link was established
-	established int  // number of links on which the broker answered the handshake
-	fastRedial bool
-	lostCalls  map[string]bool
+	y           *Sys
+	prop        string
+	faultsLeft  int
+	cuts        int
+	resumeCut   map[uuid.UUID]bool // a resume exchange of this stream was cut by a link failure
+	refused     map[uuid.UUID]bool // the broker was told to refuse / forget this stream
+	miscOps     []*Op
+	outageOps   []*Op // ops started while no link was established
+	established int   // number of links on which the broker answered the handshake
+	fastRedial  bool
+	lostCalls   map[string]bool
 }
 
 func runFaultFamily(s *Sim, prop string) {
